@@ -354,10 +354,26 @@ class Gen:
             its.insert(r.randint(0, len(its)), ("splat", sub))
         return its
 
+    def wide(self):
+        """a sequence pattern with 7..12 simple items, usually with trailing defaults (arity-dependent paths of
+        the matcher: preallocation, early length checks)"""
+        r = self.r
+        n = r.randint(7, 12)
+        its = [self.simple() if r.random() < 0.85 else self.atom() for _ in range(n)]
+        if r.random() < 0.75:
+            for i in range(n - r.randint(1, 3), n):
+                s, v = r.choice(DEFAULTS)
+                its[i] = ("default", self.simple(), s, v)
+        if r.random() < 0.2:
+            its.insert(r.randint(0, len(its)), ("splat", ("name", self.fresh())))
+        return ("seq", its, r.random() < 0.5)
+
     def pat(self, d):
         r = self.r
         if d <= 0:
             return self.atom()
+        if r.random() < 0.035:
+            return self.wide()
         x = r.random()
         if x < 0.22:
             return self.atom()
